@@ -573,6 +573,81 @@ func TestDefaultEntryPoints(t *testing.T) {
 }
 
 // ---------------------------------------------------------------------------
+// ws.HTTPUpgrader with a ResponseWriter that cannot be hijacked: no Hijack
+// method at all, a Hijack method that reports http.ErrNotSupported, or one
+// that fails with its own error. The upgrade is refused before the request is
+// looked at; the refusal goes through the ResponseWriter: an error response
+// (500) whose body is the error text, with a matching Content-Length, and of
+// course no 101. (HTTPUpgrader.Header is not asserted on this path.)
+
+var errHijackBroken = fmt.Errorf("hijack: connection already taken over")
+
+func TestHTTPNotHijackable(t *testing.T) {
+	hx.Check(t, 3, func(t *rapid.T) {
+		plan := reqgen.GenPlan(t, "plan", reqgen.HTTP)
+		req := reqgen.GenRequest(t, "req", plan)
+		cfg := reqgen.GenConfig(t, "cfg", reqgen.HTTP, plan)
+		variant := rapid.SampledFrom([]string{"no-hijacker", "hijack-not-supported", "hijack-fails"}).Draw(t, "writer")
+		viaDefault := rapid.Bool().Draw(t, "viaUpgradeHTTP")
+		raw := req.Render()
+		hx.Eval()
+		r, err := http.ReadRequest(bufio.NewReader(bytes.NewReader(raw)))
+		if err != nil {
+			hx.Class("nohijack/refused-by-net/http")
+			return
+		}
+		u, _ := cfg.HTTPUpgrader()
+		rec := tx.NewRec()
+		var w http.ResponseWriter
+		var status func() (int, http.Header, []byte)
+		var wantErr error = ws.ErrNotHijacker
+		switch variant {
+		case "no-hijacker":
+			pw := tx.NewPlainWriter()
+			w, status = pw, func() (int, http.Header, []byte) { return pw.Status, pw.HeaderAtWriteHeader, pw.Body.Bytes() }
+		default:
+			hw := tx.NewHijackable(nil, rec, 0)
+			hw.Err = fmt.Errorf("wrapped writer: %w", http.ErrNotSupported)
+			if variant == "hijack-fails" {
+				hw.Err, wantErr = errHijackBroken, errHijackBroken
+			}
+			w, status = hw, func() (int, http.Header, []byte) { return hw.Status, hw.Hdr, hw.Body.Bytes() }
+		}
+		var gotErr error
+		if viaDefault {
+			old := ws.DefaultHTTPUpgrader
+			ws.DefaultHTTPUpgrader = u
+			_, _, _, gotErr = ws.UpgradeHTTP(r, w)
+			ws.DefaultHTTPUpgrader = old
+		} else {
+			_, _, _, gotErr = u.Upgrade(r, w)
+		}
+		hx.Class(fmt.Sprintf("nohijack/%s/viaUpgradeHTTP=%v", variant, viaDefault))
+		hx.NonTrivial(hx.Hash("nohijack", variant, viaDefault, plan.Mode, fmt.Sprint(req.States)), func() interface{} {
+			return map[string]interface{}{"upgrader": "http", "writer": variant, "via_UpgradeHTTP": viaDefault, "request": string(raw[:min(len(raw), 200)])}
+		})
+		code, hdr, body := status()
+		fail := func(msg string) {
+			t.Fatalf("%s\nwriter: %s viaUpgradeHTTP=%v\nrequest: %q\nerr: %v\nstatus: %d header: %v body: %q\nwritten to the connection: %q", msg, variant, viaDefault, raw, gotErr, code, hdr, body, rec.Bytes())
+		}
+		switch {
+		case gotErr == nil:
+			fail("upgrade reported success although the connection could not be hijacked")
+		case gotErr != wantErr:
+			fail(fmt.Sprintf("returned error is %v, want %v", gotErr, wantErr))
+		case rec.Len() != 0 || has101(body) || code == 101:
+			fail("bytes reached the connection / a 101 was produced although the hijack failed")
+		case code != 500:
+			fail("a refused upgrade must be answered with the error status 500 through the ResponseWriter")
+		case string(body) != gotErr.Error():
+			fail(fmt.Sprintf("body is not the error text %q", gotErr.Error()))
+		case hdr.Get("Content-Length") != strconv.Itoa(len(body)):
+			fail(fmt.Sprintf("Content-Length %q does not match the %d-byte body", hdr.Get("Content-Length"), len(body)))
+		}
+	})
+}
+
+// ---------------------------------------------------------------------------
 // deterministic grid: every required header x every state x every spelling,
 // every method x every version form, through the package-level entry points
 // ws.Upgrade and ws.UpgradeHTTP (zero configuration).
